@@ -356,7 +356,7 @@ NONFINITE = [float("nan"), float("inf"), float("-inf")]
 
 
 def finite_shape(shape):
-    return all(math.isfinite(v) for v in shape[1])
+    return all(isinstance(v, (int, float)) and math.isfinite(v) for v in shape[1])
 
 
 def tweak(rnd, shape):
@@ -444,8 +444,8 @@ def exact_margin(shape, px, py):
     if not finite_shape(shape):
         # NaN anywhere: the region contains no point (every comparison is false); infinities: decided with float arithmetic,
         # which is exact for comparisons against +-inf
-        if any(v != v for v in p):
-            return F(-1), F(1)
+        if any((not isinstance(v, (int, float))) or v != v for v in p):
+            return F(-1), F(1)         # NaN or no number at all: the region contains no point
         if kind == "rect":
             inside = min(p[0], p[2]) <= px <= max(p[0], p[2]) and min(p[1], p[3]) <= py <= max(p[1], p[3])
         else:
